@@ -360,7 +360,7 @@ def run_unit(unit, repo='/repo', tier='quick', rlimit=30, seed=None, canaries=Tr
     # in such a function is undecided, not a violation.  (Fewer loops: the dropped sections are recorded and the
     # function's own contract still decides.)
     lbase = _loop_baseline().get(unit, {})
-    lnow = {f['fn']: f.get('loops', 0) for f in g.functions}
+    lnow = {f['fn']: f.get('loops', 0) for f in g.functions if not f.get('maxloops')}   # where a `maxloops=` census is declared, the census speaks
     kept = []
     for o in res.failures:
         fnq = o.get('fn')
